@@ -26,10 +26,15 @@ static void set_env(int e) {
 #endif
 }
 
-static Alphabet make_alphabet(int vm_flags, bool big) {
+// keyset 0: the empty key (a prefix of every key, different length) and a text key.  keyset 1: two binary keys of EQUAL length that agree up
+// to and including an embedded 0x00 and differ in the last byte (a 'same key?' shortcut that compares as C strings, or all but the
+// last byte, sees them as equal - seeded change agent6_C03).
+static Alphabet make_alphabet(int vm_flags, bool big, int keyset = 0) {
 	const bool th = big;
 	Alphabet A; A.vm_flags = vm_flags;
 	A.keys = { "", "test key 000" }; A.inputs = { "", "This is a test" };
+	if (keyset == 1) A.keys = { std::string("k\0yA", 4), std::string("k\0yB", 4) };
+	if (th) { A.keys.push_back(std::string("k\0yA", 4)); A.keys.push_back(std::string("k\0yB", 4)); }
 	if (th) { std::string base = alph::pattern(60, 2); A.keys.push_back(base); A.keys.push_back(base + "Z"); A.inputs.push_back(alph::pattern(200, 1)); }
 	A.cache_jit_variants = (vm_flags & RANDOMX_FLAG_FULL_MEM) != 0;
 	return A;
@@ -52,7 +57,7 @@ int main(int argc, char** argv) {
 	const int nenv = th ? 8 : 3;
 #endif
 	if (!args.replay.empty()) {   // run one history from scratch in this process
-		vf::Json r = vf::Json::load(args.replay); Alphabet A = make_alphabet((int)r.at("vm_flags").num(), r.at("thorough").b); set_env((int)r.at("env").num());
+		vf::Json r = vf::Json::load(args.replay); Alphabet A = make_alphabet((int)r.at("vm_flags").num(), r.at("thorough").b, r.has("keyset") ? (int)r.at("keyset").num() : 0); set_env((int)r.at("env").num());
 		W.A = &A; compute_expected(W);
 		for (auto& o : hist_from(r.at("history_raw"))) {
 			if (!W.enabled(o)) { printf("replay: operation %s not enabled (harness error)\n", op_str(o).c_str()); return 2; }
@@ -68,11 +73,11 @@ int main(int argc, char** argv) {
 #else
 	const int depth = atoi(args.get("depth", th ? "6" : "5").c_str());
 #endif
-	struct Job { int flags, env, depth; bool dedup; int root; bool big; };
+	struct Job { int flags, env, depth; bool dedup; int root; bool big; int keyset = 0; };
 	std::vector<Job> jobs;
 	if (th) {
 		// (A) small alphabets (2 keys, 2 inputs), full depth: all flag sets x two allocator answers (reuse-large-blocks, fresh), second root under the first
-		for (int f : flagsets) { for (int e : { 0, 2 }) if (e < nenv) jobs.push_back({ f, e, depth, true, 0, false }); jobs.push_back({ f, 0, depth, true, 1, false }); }
+		for (int f : flagsets) { for (int e : { 0, 2 }) if (e < nenv) jobs.push_back({ f, e, depth, true, 0, false, e == 2 ? 1 : 0 }); jobs.push_back({ f, 0, depth, true, 1, false }); }
 		// (B) large alphabets (4 keys incl. a pair sharing 60 bytes, 3 inputs), one level less, both roots; remaining allocator answers
 		for (int f : flagsets) { jobs.push_back({ f, 0, depth - 1, true, 0, true }); jobs.push_back({ f, 0, depth - 1, true, 1, true }); }
 		for (int f : flagsets) for (int e : { 1, 3, 4, 5, 6, 7 }) if (e < nenv) jobs.push_back({ f, e, depth - 1, true, 0, false });
@@ -81,7 +86,7 @@ int main(int argc, char** argv) {
 		for (int f : flagsets) jobs.push_back({ f | RANDOMX_FLAG_LARGE_PAGES, 0, depth - 1, true, 0, false });   // LARGE_PAGES VM classes
 #endif
 	} else {   // quick: at most 16 explorations (one wave on 16 cores)
-		for (int f : flagsets) { jobs.push_back({ f, 0, depth, true, 0, false }); if (nenv > 1) jobs.push_back({ f, 2, depth, true, 0, false }); jobs.push_back({ f, 0, depth, true, 1, false }); }   // reuse-large-blocks, fresh; second root: two live caches with different keys
+		for (int f : flagsets) { jobs.push_back({ f, 0, depth, true, 0, false }); if (nenv > 1) jobs.push_back({ f, 2, depth, true, 0, false, 1 }); jobs.push_back({ f, 0, depth, true, 1, false }); }   // reuse-large-blocks; fresh memory with the binary key pair; second root: two live caches with different keys
 		if (nenv > 1) jobs.push_back({ flagsets[0], 1, depth, true, 0, false });                                                                  // reuse-all on the first flag set
 		for (size_t i = 0; i < 2 && i < flagsets.size(); ++i) jobs.push_back({ flagsets[i], 0, std::min(depth, 3), false, 0, false });   // no state merging, depth 3: must give the same verdict
 		// second wave, one level less: the flag sets not in the first wave, and two LARGE_PAGES VM classes
@@ -92,7 +97,7 @@ int main(int argc, char** argv) {
 	}
 	vf::Result total = vf::run_shards(args, (int)jobs.size(), [&](int shard) {
 		vf::Result R; const Job& j = jobs[shard];
-		Alphabet A = make_alphabet(j.flags, j.big); set_env(j.env); dedup = j.dedup;
+		Alphabet A = make_alphabet(j.flags, j.big, j.keyset); set_env(j.env); dedup = j.dedup;
 		explore_init();   // table private to this exploration and its descendants
 		W.A = &A; compute_expected(W); OPS = W.alphabet_ops();
 		for (auto& o : setup_ops(A, j.root)) { if (!W.enabled(o) || !W.apply(o)) { vf::Violation v; v.key = "c03:setup"; v.what = "setup operation " + op_str(o) + " failed: " + W.problem; v.replay = vf::Json::obj(); R.viol.push_back(v); return R; } H.push_back(o); }
@@ -106,14 +111,14 @@ int main(int argc, char** argv) {
 		R.n["states"] = SH->states; R.n["transitions"] = SH->transitions; R.n["hashes_checked"] = SH->hashes; R.n["merged_on_digest"] = SH->dedup_hits; R.n["explorations"] = 1;
 		R.mx["history_length"] = SH->max_depth_reached;
 		if (!j.dedup) { R.n["states_unmerged_runs"] = SH->states; R.n["states"] = 0; R.n["transitions_unmerged_runs"] = SH->transitions; R.n["transitions"] = 0; }
-		R.tags.insert(cfg + "|" + ENVS[j.env].name + (j.root ? "|root2" : "") + (j.big ? "|large alphabet" : "") + (j.dedup ? "" : "|no-merge") + "|depth " + std::to_string(j.depth) + "|states " + std::to_string(SH->states));
+		R.tags.insert(cfg + "|" + ENVS[j.env].name + (j.root ? "|root2" : "") + (j.big ? "|large alphabet" : "") + (j.keyset ? "|binary key pair" : "") + (j.dedup ? "" : "|no-merge") + "|depth " + std::to_string(j.depth) + "|states " + std::to_string(SH->states));
 		for (uint64_t i = 0; i < std::min<uint64_t>(SH->nviol, 8); ++i) {
 			auto& sv = SH->viol[i]; std::vector<Op> h; for (int k = 0; k < sv.hlen; ++k) h.push_back(Op{ (uint8_t)(sv.h[k] & 255), (uint8_t)((sv.h[k] >> 8) & 255), (uint8_t)((sv.h[k] >> 16) & 255) });
 			vf::Violation v; const Op& last = h.back();
 			v.key = std::string("c03:") + OPNAME[last.code] + ":" + cfg + ":" + (sv.signal ? "crash" : "digest");
 			std::string hs; for (auto& o : h) hs += op_str(o) + " ";
 			v.what = cfg + " [" + ENVS[j.env].name + "] history: " + hs + "=> " + sv.what;
-			v.replay = vf::Json::obj().set("vm_flags", j.flags).set("cfg", cfg).set("env", j.env).set("env_name", ENVS[j.env].name).set("thorough", j.big).set("history", hist_json(h)).set("history_raw", hist_raw(h));
+			v.replay = vf::Json::obj().set("vm_flags", j.flags).set("cfg", cfg).set("env", j.env).set("env_name", ENVS[j.env].name).set("thorough", j.big).set("keyset", j.keyset).set("history", hist_json(h)).set("history_raw", hist_raw(h));
 			R.viol.push_back(v);
 		}
 		if (shard == 0) { std::vector<Op> s = setup_ops(A); s.push_back({ HASH, 1, 0 }); s.push_back({ INIT_CACHE, 0, 0 }); s.push_back({ SET_CACHE, 0, 0 }); s.push_back({ HASH, 1, 0 }); R.sample(vf::Json::obj().set("cfg", cfg).set("env", ENVS[j.env].name).set("history", hist_json(s)), 1); }
@@ -127,7 +132,7 @@ int main(int argc, char** argv) {
 		.set("evaluations", (unsigned long long)total.n["hashes_checked"]).set("distinct_nontrivial", (unsigned long long)total.n["states"])
 		.set("depth_bound", depth).set("exhaustive", !total.incomplete)
 		.set("rule", std::string("profile ") + RX_PROFILE + ": for each explored VM flag set and each environment answer (address-reuse policy x fill pattern of fresh memory): all histories of documented-contract operations (alloc/init/release cache x2, alloc/init/release dataset, create/destroy VM, vm_set_cache, vm_set_dataset, v1<->v2, hash, first/next/last) up to the depth bound after a fixed setup, executed on the real objects (states cloned by fork, deduplicated on a canonical concrete digest, depth-aware); every digest returned anywhere must equal the fresh-object digest; a second search without merging (depth 3) must agree. states/transitions are summed over explorations; every transition is an execution of the implementation");
-	ev.assumptions = { "quick: four flag sets at the full depth, the other eight and two LARGE_PAGES classes one level less; two caches, one VM per flag set at a time, key/input alphabets of 2 (quick) or 4/3 (thorough) elements; histories longer than the bound are covered only through state merging",
+	ev.assumptions = { "quick: four flag sets at the full depth, the other eight and two LARGE_PAGES classes one level less; two caches, one VM per flag set at a time, key/input alphabets of 2 (quick: {empty, text} and, in the fresh-memory jobs, two equal-length binary keys that differ after an embedded 0x00) or 6/3 (thorough) elements; histories longer than the bound are covered only through state merging",
 		"contract guards of DESIGN.md appendix B decide which operations are enabled" };
 	return vf::finish(args, total, ev, true, true);
 }
